@@ -65,9 +65,31 @@ def bvGet (v : BV) (i : Nat) : M Bool := do
   let x ← idx v.b (i / 8)
   pure (x.toNat / 2 ^ (i % 8) % 2 == 1)
 
-/-- `bv.SetBytes(m)`: error unless the lengths agree, else byte-wise or -/
-def bvSetBytes (v : BV) (m : Bytes) : Option BV :=
-  if m.length ≠ v.b.length then none else some { v with b := List.zipWith (· ||| ·) v.b m }
+/-- bit `i % 8` of a byte (`x & (1 << uint(i%8)) != 0`) -/
+def bitOf (x : UInt8) (i : Nat) : Bool := x.toNat / 2 ^ (i % 8) % 2 == 1
+
+/-- `bv.set(i, true)`: `bv.Get(i)` reads `bv.b[i/8]`; when the bit is not yet set it is flipped
+    (`bv.b[i/8] ^= 1 << (i%8)`, which for an unset bit adds `2^(i%8)`) -/
+def bvSetBit (v : BV) (i : Nat) : M BV := do
+  let x ← idx v.b (i / 8)
+  pure (if bitOf x i then v else { v with b := v.b.set (i / 8) (UInt8.ofNat (x.toNat + 2 ^ (i % 8))) })
+
+/-- the loop of `SetBytes`, bit by bit as the code runs it:
+    `for i := 0; i < len(bv.b)*8; i++ { if bs[i/8]&(1<<uint(i%8)) > 0 { bv.set(i, true) } }`
+    (`n` iterations left, loop variable `i`): it indexes BOTH `bs` and `bv.b` at `i/8` -/
+def bvSetLoop (bs : Bytes) : Nat → Nat → BV → M BV
+  | 0, _, v => pure v
+  | n + 1, i, v => do
+    let y ← idx bs (i / 8)
+    let v ← if bitOf y i then bvSetBit v i else pure v
+    bvSetLoop bs n (i + 1) v
+
+/-- `bv.SetBytes(bs)`: `none` = the "invalid length" error (`len(bs) != len(bv.b)`: shorter, longer and
+    empty arguments alike), else the bit loop over the stored bytes -/
+def bvSetBytes (v : BV) (bs : Bytes) : M (Option BV) :=
+  if bs.length ≠ v.b.length then pure none else do
+    let r ← bvSetLoop bs (v.b.length * 8) 0 v
+    pure (some r)
 
 /-- `aurora.NewModelFromBytes(m)` = `NewFromBytes(m, 1)` -/
 def modeFromBytes (m : Bytes) : Option BV := bvFromBytes m 1
@@ -494,11 +516,13 @@ def updateChunkInfo (st : CiState) (root overlay bv : Bytes) : M CiState := do
       let _ := vb
       pure st
   | some ptr =>
-    let cur ← deref ptr                                 -- vb.bit.SetBytes(bv)
-    let st := match bvSetBytes cur bv with
-      | some n => discSet st (root, overlay) (some n)
-      | none => st
-    pure st
+    -- a vector is already stored for (root, overlay): `vb.bit.SetBytes(bv)` merges bit by bit and
+    -- rejects `len(bv) != len(vb.bit.b)` (shorter, longer, empty); the error is only logged and the
+    -- stored vector stays as it was; then `stateStorer.Put(…, vb.bit.Bytes(), vb.bit.Len())`
+    let cur ← deref ptr
+    match ← bvSetBytes cur bv with
+    | some n => pure (discSet st (root, overlay) (some n))
+    | none => pure st
 
 /-- before the repair: the error of `NewFromBytes` is dropped and the nil vector is stored and used -/
 def updateChunkInfoOld (st : CiState) (root overlay bv : Bytes) : M CiState := do
@@ -513,10 +537,9 @@ def updateChunkInfoOld (st : CiState) (root overlay bv : Bytes) : M CiState := d
     pure st
   | some ptr =>
     let cur ← deref ptr
-    let st := match bvSetBytes cur bv with
-      | some n => discSet st (root, overlay) (some n)
-      | none => st
-    pure st
+    match ← bvSetBytes cur bv with
+    | some n => pure (discSet st (root, overlay) (some n))
+    | none => pure st
 
 def pullMax : Nat := 200
 def pullingMax : Nat := 10
